@@ -45,8 +45,8 @@ import ast
 from typing import Dict, List, Optional, Set, Tuple
 
 from ..cfg import Branch, atoms, cfg_of, origins
-from ..index import AnalysisError, FuncNode, arg_of, call_name, calls_in, const, enclosing_class, enclosing_function, kwarg, last_attr, module_of, norm, short, walk_local
-from ..iohelpers import LINTER, RUNNER, all_calls, ancestors, branch_node, decorator_names, fq, fq_expr, in_block, inside, param_of, qual, returns_of
+from ..index import AnalysisError, FuncNode, call_name, calls_in, const, enclosing_class, enclosing_function, kwarg, last_attr, module_of, norm, short, walk_local
+from ..iohelpers import LINTER, RUNNER, ancestors, branch_node, decorator_names, fq, fq_expr, in_block, param_of, qual, returns_of
 from ..report import construct_of
 
 TEMPL_BASE = "src/sqlfluff/core/templaters/base.py"
